@@ -143,7 +143,7 @@ func checkC17(c *Ctx, r *Report) {
 						h = ct.X
 					}
 					if call, ok := h.(*ssa.Call); ok {
-						if sc := call.Call.StaticCallee(); sc != nil && sc.Name() == "translationHandler" {
+						if sc := call.Call.StaticCallee(); sc != nil && sc == c.Fn(pkgHandlers, "(*Application).translationHandler") {
 							uncovered = append(uncovered, c.Pos(in.Pos())+": translation handler registered as a non-proxy route")
 						}
 					}
